@@ -44,17 +44,25 @@ def insert_placeholders(dt: xr.DataTree) -> xr.DataTree:
     return dt
 
 
+def _sanitize_attr(attr: Any) -> Any:
+    sanitized_types = (dict, list, bool, type(None))
+    if isinstance(attr, sanitized_types):
+        return str(attr)
+    # A genuine string that would be mistaken for a sanitized value when loading
+    # (e.g. user metadata "[1, 2]", "None") is stored as its quoted literal
+    if _should_desanitize(attr):
+        return repr(attr)
+    return attr
+
+
 def _sanitize_attrs_nc(dt: xr.DataTree) -> xr.DataTree:
     """Sanitize both node-level and variable-level attrs to strings for netcdf."""
-    sanitized_types = (dict, list, bool, type(None))
     for node in dt.subtree:
         for key, attr in node.attrs.items():
-            if isinstance(attr, sanitized_types):
-                node.attrs[key] = str(attr)
+            node.attrs[key] = _sanitize_attr(attr)
         for v in node.variables:
             for key, attr in node[v].attrs.items():
-                if isinstance(attr, sanitized_types):
-                    node[v].attrs[key] = str(attr)
+                node[v].attrs[key] = _sanitize_attr(attr)
     return dt
 
 
@@ -65,6 +73,7 @@ def _should_desanitize(attr: Any) -> bool:
             or (attr[0] == "[" and attr[-1] == "]")
             or (attr in ["True", "False"])
             or (attr == "None")
+            or (len(attr) > 1 and attr[0] == attr[-1] and attr[0] in "'\"")
         ):
             return True
     return False
